@@ -29,6 +29,7 @@ from vlib.gen import recipes as R
 
 logging.getLogger("gemseo").setLevel(logging.CRITICAL)
 warnings.filterwarnings("ignore", category=DeprecationWarning)
+warnings.filterwarnings("ignore", category=RuntimeWarning)
 warnings.filterwarnings("ignore", message=".*Casting complex values to real.*")
 
 PROPERTY = "C20"
@@ -66,6 +67,8 @@ ASSUMPTIONS = [
     "comparison is sound because both objects run the same code on the same floats in the same process (or a fork of it)",
     "thread-parallel processes (MDOParallelChain, MDAJacobi) compute each discipline deterministically",
     "an operation that raises on the original must raise the same exception type on the restored object (counted as a class)",
+    "random samples of a ParameterSpace are compared for OpenTURNS distributions only (global generator re-seeded before each "
+    "call); SciPy frozen distributions pickle a private copy of the RandomState, which is SciPy's documented behaviour",
 ]
 
 CACHES = ["Simple", "Simple", "None", "MemoryFull", "HDF5", "HDF5"]
@@ -139,6 +142,9 @@ def K(name: str):
     return ("k", name)
 
 
+LOOSE_DTYPE = [False]  # HDF5 caches give back float64 / CSR data: values are compared, not the dtype
+
+
 def diff(a, b, path="") -> str | None:
     """First difference between two ``plain`` structures (None when equal; exact, NaN == NaN)."""
     if (isinstance(a, tuple) and a == FOREIGN) or (isinstance(b, tuple) and b == FOREIGN):
@@ -147,7 +153,9 @@ def diff(a, b, path="") -> str | None:
         if not (isinstance(a, np.ndarray) and isinstance(b, np.ndarray)):
             return f"{path}: {type(a).__name__} vs {type(b).__name__}"
         if a.dtype != b.dtype:
-            return f"{path}: dtype {a.dtype} vs {b.dtype}"
+            if not (LOOSE_DTYPE[0] and a.dtype.kind in "fc" and b.dtype.kind in "fc"):
+                return f"{path}: dtype {a.dtype} vs {b.dtype}"
+            a, b = a.astype(complex), b.astype(complex)
         if a.shape != b.shape:
             return f"{path}: shape {a.shape} vs {b.shape}"
         if a.dtype.kind in "fc":
@@ -281,7 +289,7 @@ def _worker(conn):
             obj.evaluate(action[1])
         elif kind == "scenario":
             obj.execute(**action[1])
-        conn.send(("ok", obj))
+        conn.send(("ok", obj))  # "noop": the object only travels
     except BaseException as exc:  # noqa: BLE001
         try:
             conn.send(("error", f"{type(exc).__name__}: {exc}", traceback.format_exc()))
@@ -364,8 +372,8 @@ PRE_OPS = ["exec", "exec", "exec_same", "lin_all", "lin_all", "lin", "lin", "def
 
 
 @st.composite
-def discipline_cases(draw):
-    name = draw(st.sampled_from(_weighted(("discipline", "mda"))))
+def discipline_cases(draw, recipe: str | None = None):
+    name = recipe or draw(st.sampled_from(_weighted(("discipline", "mda"))))
     rec = R.RECIPES[name]
     pre = draw(st.lists(
         st.fixed_dictionaries({"op": st.sampled_from(PRE_OPS), "u": _u(), "k": st.integers(0, 7), "partial": st.booleans()}),
@@ -401,9 +409,10 @@ class Life:
         self.p = p
         self.rec = R.RECIPES[p["recipe"]]
         self.args = p["args"]
-        if p["cache"] == "HDF5" and self.args.get("complex"):
-            # HDF5 caches store the real part only: complex-typed variants are exercised with the other caches
-            self.args = {**self.args, "complex": False}
+        if p["cache"] == "HDF5" and (self.args.get("complex") or self.args.get("free")):
+            # HDF5 caches store real arrays only (no complex part, no linear operator): those variants are
+            # exercised with the other caches
+            self.args = {**self.args, "complex": False, "free": False}
         self.gtype = self.rec.grammars[p["gi"] % len(self.rec.grammars)]
         np.random.seed(p["seed"])
         classes = self.rec.gclasses() if self.rec.gclasses else ()
@@ -465,6 +474,22 @@ class Life:
         return obj.linearize(data)
 
     def apply(self, op) -> None:
+        """One step of the life before pickling.
+
+        An operation that gemseo itself rejects on the original (unrelated defects / unsupported
+        combinations, e.g. a DOE with Jacobians over a matrix-free discipline) is part of the life:
+        the object is pickled in the state the failure left it in; the class is counted.
+        """
+        from vlib.core import is_harness_fault
+
+        try:
+            self._apply(op)
+        except Exception as exc:  # noqa: BLE001
+            if is_harness_fault(exc):
+                raise
+            self.flags.add(f"pre_op_raises:{op['op']}:{type(exc).__name__}")
+
+    def _apply(self, op) -> None:
         d = self.obj
         kind = op["op"]
         if kind in ("lin", "lin_all", "approx") and not self.rec.linearizable:
@@ -504,8 +529,9 @@ class Life:
         d = self.obj
         ins, outs = self.diff_candidates()
         ins = [n for n in ins if self.base[n].dtype.kind == "f" and self.base[n].ndim == 1]
-        if not ins or not outs or self.gtype == "Pydantic":
-            return self.apply({**op, "op": "exec"})
+        complete = all(n in d.io.input_grammar.defaults for n in d.io.input_grammar)
+        if not ins or not outs or not complete or self.gtype == "Pydantic":
+            return self._apply({**op, "op": "exec"})
         name = ins[op["k"] % len(ins)]
         pts = [self.point(op["u"])[name], self.point([-v for v in op["u"]])[name]]
         samples = np.vstack(pts)
@@ -545,9 +571,11 @@ def case_discipline(p, ctx):
     saved_stats = ExecutionStatistics.is_enabled
     try:
         ExecutionStatistics.is_enabled = bool(p["stats"])
+        LOOSE_DTYPE[0] = p["cache"] == "HDF5"
         _discipline_body(p, ctx, rec, tmp)
     finally:
         ExecutionStatistics.is_enabled = saved_stats
+        LOOSE_DTYPE[0] = False
         _forget_hdf5(tmp)
         shutil.rmtree(tmp, ignore_errors=True)
 
@@ -725,6 +753,7 @@ def _mutate(d, what: str, life: Life, cache_kind: str, stats: bool, p) -> bool:
     defaults = d.io.input_grammar.defaults
     arrays = [n for n in sorted(defaults) if isinstance(defaults[n], np.ndarray) and defaults[n].size and defaults[n].dtype.kind in "fc"]
     if what == "defaults_inplace":
+        arrays = [n for n in arrays if defaults[n].flags.writeable]
         if not arrays:
             return False
         for n in arrays:
@@ -778,10 +807,533 @@ def _mutate(d, what: str, life: Life, cache_kind: str, stats: bool, p) -> bool:
     return False
 
 
-ORACLES = {"discipline": case_discipline}
+# ======================================================================================
+# MDOFunction kinds (incl. ProblemFunction of a preprocessed problem)
+# ======================================================================================
+def _xs(n: int, u) -> np.ndarray:
+    """A generated point of [0, 1]^n (valid normalized and unnormalized input of the recipes)."""
+    return np.array([0.5 + 0.45 * float(u[i % len(u)]) for i in range(n)])
+
+
+@st.composite
+def function_cases(draw):
+    rec = R.RECIPES["MDOFunction"]
+    return {
+        "args": draw(rec.args),
+        "pre": draw(st.lists(st.fixed_dictionaries({"u": _u(), "jac": st.booleans()}), min_size=0, max_size=3)),
+        "stats": draw(st.integers(0, 5)) > 0,
+        "channel": draw(st.sampled_from(CHANNELS)),
+        "protocol": draw(st.sampled_from([2, 4, 5])),
+        "worker_u": draw(_u()),
+        "post": draw(st.lists(st.fixed_dictionaries({"u": _u(), "jac": st.booleans()}), min_size=1, max_size=3)),
+        "mutate_restored": draw(st.booleans()),
+    }
+
+
+def function_view(f, stats: bool) -> dict:
+    view = {
+        "class": type(f).__qualname__, "name": f.name, "f_type": f.f_type, "expr": f.expr, "input_names": list(f.input_names),
+        "output_names": list(f.output_names), "dim": f.dim, "special_repr": f.special_repr, "original_name": f.original_name,
+        "has_jac": f.has_jac, "normalized": f.expects_normalized_inputs, "force_real": f.force_real, "last_eval": f.last_eval,
+        "repr": repr(f),
+    }
+    if hasattr(f, "n_calls") and stats:
+        view["n_calls"] = f.n_calls
+    if hasattr(f, "coefficients"):
+        view["coefficients"] = f.coefficients
+    if hasattr(f, "value_at_zero"):
+        view["value_at_zero"] = f.value_at_zero
+    return plain(view)
+
+
+def database_view(db) -> list:
+    out = []
+    for x, values in db.items():
+        out.append({"x": np.array(x.unwrap() if hasattr(x, "unwrap") else x), "values": dict(values)})
+    return plain(out)
+
+
+def case_function(p, ctx):
+    from gemseo.algos.problem_function import ProblemFunction
+
+    tmp = tempfile.mkdtemp(dir=os.environ.get("VERIF_SCRATCH"))
+    saved = ProblemFunction.enable_statistics
+    try:
+        ProblemFunction.enable_statistics = bool(p["stats"])
+        _function_body(p, ctx, tmp)
+    finally:
+        ProblemFunction.enable_statistics = saved
+        shutil.rmtree(tmp, ignore_errors=True)
+
+
+def _function_body(p, ctx, tmp):
+    a = p["args"]
+    stats = bool(p["stats"])
+    kind = R.FUNCTION_KINDS[a["kind"] % len(R.FUNCTION_KINDS)]
+    f, n, problem = R.build_function(a)
+    fd = problem is not None and a.get("fd")
+    ctx.cls(f"function:{kind}", f"channel:{p['channel']}")
+    n_eval = 0
+    for op in p["pre"]:
+        x = _xs(n, op["u"])
+        f.evaluate(x)
+        n_eval += 1
+        if op["jac"] and f.has_jac:
+            f.jac(x)
+    ctx.cls("moment:fresh" if not p["pre"] else "moment:after_evaluations")
+    wx = _xs(n, p["worker_u"])
+    before = function_view(f, stats)
+    db_before = database_view(problem.database) if problem is not None else None
+    restored = roundtrip(f, p["channel"], p["protocol"], tmp, ctx, action=("evaluate", wx.copy()))
+    if p["channel"] == "fork":
+        f.evaluate(wx.copy())
+        before = function_view(f, stats)
+        db_before = database_view(problem.database) if problem is not None else None
+    ctx.check(type(restored) is type(f) and restored is not f, "restored_type", f"restored function is a {type(restored).__name__}")
+    d = diff(before, function_view(restored, stats))
+    ctx.check(d is None, "function_exposed", f"restored function differs from the original: {d}")
+    if problem is not None and a["database"]:
+        d = diff(db_before, database_view(restored._database))
+        ctx.check(d is None, "function_exposed", f"the database travelling with the restored ProblemFunction differs: {d}")
+    for op in p["post"]:
+        x = _xs(n, op["u"])
+        r1 = _call(lambda: plain(f.evaluate(x.copy())))
+        r2 = _call(lambda: plain(restored.evaluate(x.copy())))
+        ctx.check(r1[0] == r2[0] and (r1[0] == "raises" and r1[1] == r2[1] or r1[0] == "ok"), "function_value",
+                  f"evaluate: original {r1[0]} {r1[1] if r1[0] == 'raises' else ''}, restored {r2[0]} {r2[1] if r2[0] == 'raises' else ''}")
+        if r1[0] == "ok":
+            d = diff(r1[1], r2[1])
+            ctx.check(d is None, "function_value", f"evaluate differs at a generated point: {d}", x=x)
+        else:
+            ctx.cls(f"original_raises:{r1[1]}")
+        if op["jac"] and f.has_jac:
+            j1 = _call(lambda: plain(f.jac(x.copy())))
+            j2 = _call(lambda: plain(restored.jac(x.copy())))
+            ctx.check(j1[0] == j2[0], "function_jacobian", f"jac: original {j1}, restored {j2}"[:300])
+            if j1[0] == "ok":
+                d = diff(j1[1], j2[1])
+                ctx.check(d is None, "function_jacobian", f"jac differs at a generated point: {d}", x=x)
+            else:
+                ctx.cls(f"original_raises:{j1[1]}")
+    d = diff(function_view(f, stats), function_view(restored, stats))
+    ctx.check(d is None, "function_counters", f"after the same evaluations the two functions differ: {d}")
+    # independence: one more evaluation on one side only
+    mutated, untouched = (restored, f) if p["mutate_restored"] else (f, restored)
+    snap = function_view(untouched, stats)
+    db_u = None
+    if problem is not None and a["database"]:
+        db_u = database_view(untouched._database)
+    xm = _xs(n, [0.91, -0.83, 0.77])
+    _call(lambda: mutated.evaluate(xm))
+    if mutated.has_jac:
+        _call(lambda: mutated.jac(xm))
+    if isinstance(mutated.last_eval, np.ndarray) and mutated.last_eval.flags.writeable:
+        mutated.last_eval += 1.0
+    if hasattr(mutated, "n_calls") and stats:
+        mutated.n_calls = mutated.n_calls + 5
+    mutated.name = mutated.name + "_changed"
+    d = diff(snap, function_view(untouched, stats))
+    ctx.check(d is None, "function_independence", f"evaluating / renaming one function changed the other: {d}")
+    if db_u is not None:
+        d = diff(db_u, database_view(untouched._database))
+        ctx.check(d is None, "function_independence", f"evaluating one ProblemFunction changed the database of the other: {d}")
+    if n_eval >= 1:
+        ctx.nontriv(("function", p))
+        ctx.cls("nontrivial")
+    if fd:
+        ctx.cls("function:finite_differences")
+    ctx.sample({"oracle": "function", "kind": kind, "n_pre": len(p["pre"]), "channel": p["channel"]})
+
+
+# ======================================================================================
+# DesignSpace / ParameterSpace
+# ======================================================================================
+@st.composite
+def space_cases(draw):
+    rec = R.RECIPES["Space"]
+    return {
+        "args": draw(rec.args),
+        "used": draw(st.booleans()),
+        "channel": draw(st.sampled_from(["dumps", "dumps", "file", "fork"])),
+        "protocol": draw(st.sampled_from([2, 4, 5])),
+        "u": draw(_u()),
+        "seed": draw(st.integers(0, 5)),
+        "mutate_restored": draw(st.booleans()),
+    }
+
+
+def space_view(space) -> dict:
+    view = {
+        "class": type(space).__qualname__, "name": space.name, "names": list(space.variable_names), "dimension": space.dimension,
+        "sizes": dict(space.variable_sizes), "types": {k: np.asarray(v) for k, v in space.variable_types.items()},
+        "lower": space.get_lower_bounds(), "upper": space.get_upper_bounds(), "has_value": space.has_current_value,
+        "current": {k: v for k, v in space._current_value.items()}, "normalize": dict(space.normalize),
+        "str": str(space),
+    }
+    if hasattr(space, "uncertain_variables"):
+        view["uncertain"] = list(space.uncertain_variables)
+        view["deterministic"] = list(space.deterministic_variables)
+        view["distributions"] = {k: repr(v) for k, v in space.distributions.items()}
+        view["moments"] = {k: [np.asarray(v.mean), np.asarray(v.standard_deviation), np.asarray(v.range)] for k, v in space.distributions.items()}
+    return plain(view)
+
+
+def _space_maps(space, u, seed: int) -> dict:
+    """Values of the normalisation / projection / sampling maps at generated points."""
+    out = {}
+    n = space.dimension
+    t = np.array([0.5 + 0.5 * float(u[i % len(u)]) for i in range(n)])  # in [0, 1]
+    bounded = bool(np.all(np.isfinite(space.get_lower_bounds())) and np.all(np.isfinite(space.get_upper_bounds())))
+    lb = np.where(np.isfinite(space.get_lower_bounds()), space.get_lower_bounds(), -3.0)
+    ub = np.where(np.isfinite(space.get_upper_bounds()), space.get_upper_bounds(), lb + 5.0)
+    lb = np.minimum(lb, ub - 1e-3) if not bounded else lb
+    x = lb + (ub - lb) * t
+    out["unnormalize"] = _call(lambda: space.unnormalize_vect(t.copy()))
+    out["normalize"] = _call(lambda: space.normalize_vect(x.copy()))
+    out["round"] = _call(lambda: space.round_vect(x.copy()))
+    out["project"] = _call(lambda: space.project_into_bounds(x + 10.0))
+    out["to_dict"] = _call(lambda: space.convert_array_to_dict(x.copy()))
+    out["transform"] = _call(lambda: space.transform_vect(x.copy()))
+    out["untransform"] = _call(lambda: space.untransform_vect(t.copy()))
+    if space.has_current_value:
+        out["current_array"] = _call(lambda: space.get_current_value())
+        out["current_normalized"] = _call(lambda: space.get_current_value(normalize=True)) if bounded else None
+    if hasattr(space, "uncertain_variables") and space.uncertain_variables:
+        import openturns
+
+        def sample():
+            np.random.seed(seed)
+            openturns.RandomGenerator.SetSeed(seed)
+            return space.compute_samples(3)
+
+        if all("OT" in type(d).__name__ for d in space.distributions.values()):
+            # (a pickled SciPy frozen distribution carries a private copy of numpy's RandomState: its samples
+            # are by construction not driven by numpy.random.seed any more - not compared)
+            out["samples"] = _call(sample)
+        unc = space.extract_uncertain_space()
+        point = {name: np.full(unc.variable_sizes[name], 0.5) for name in unc.variable_names}
+        out["cdf"] = _call(lambda: space.evaluate_cdf(point))
+        out["inverse_cdf"] = _call(lambda: space.evaluate_cdf(point, inverse=True))
+    return plain(out)
+
+
+def case_space(p, ctx):
+    tmp = tempfile.mkdtemp(dir=os.environ.get("VERIF_SCRATCH"))
+    try:
+        _space_body(p, ctx, tmp)
+    finally:
+        shutil.rmtree(tmp, ignore_errors=True)
+
+
+def _space_body(p, ctx, tmp):
+    a = p["args"]
+    space = R.build_space(a)
+    ctx.cls(f"space:{type(space).__name__}", f"channel:{p['channel']}")
+    if p["used"]:
+        _space_maps(space, p["u"], p["seed"])  # builds the cached normalisation data
+        ctx.cls("moment:used")
+    else:
+        ctx.cls("moment:fresh")
+    before = space_view(space)
+    restored = roundtrip(space, p["channel"], p["protocol"], tmp, ctx, action=("noop",))
+    ctx.check(type(restored) is type(space) and restored is not space, "restored_type", f"restored space is a {type(restored).__name__}")
+    d = diff(before, space_view(restored))
+    ctx.check(d is None, "space_exposed", f"restored space differs from the original: {d}")
+    ctx.check(restored == space and space == restored, "space_exposed", "restored space is not == to the original")
+    m1, m2 = _space_maps(space, p["u"], p["seed"]), _space_maps(restored, p["u"], p["seed"])
+    d = diff(m1, m2)
+    ctx.check(d is None, "space_maps", f"normalisation / projection / sampling maps differ: {d}")
+    for key, value in m1.items():
+        if isinstance(value, list) and value and value[0] == "raises":
+            ctx.cls(f"original_raises:{key[1]}:{value[1]}")
+    # independence
+    mutated, untouched = (restored, space) if p["mutate_restored"] else (space, restored)
+    snap, maps = space_view(untouched), _space_maps(untouched, p["u"], p["seed"])
+    name = mutated.variable_names[0]
+    if not (hasattr(mutated, "uncertain_variables") and name in mutated.uncertain_variables):
+        lb = mutated.get_lower_bound(name)
+        mutated.set_lower_bound(name, np.where(np.isfinite(lb), lb - 1.0, -50.0))
+        ub = mutated.get_upper_bound(name)
+        mutated.set_upper_bound(name, np.where(np.isfinite(ub), ub + 1.0, 50.0))
+        mutated.set_current_variable(name, np.where(np.isfinite(ub), ub, 1.0))
+    for v in mutated._current_value.values():
+        if v.flags.writeable:
+            v += 0
+    if len(mutated.variable_names) > 1:
+        mutated.remove_variable(mutated.variable_names[-1])
+    d = diff(snap, space_view(untouched))
+    ctx.check(d is None, "space_independence", f"changing one space changed the other: {d}")
+    d = diff(maps, _space_maps(untouched, p["u"], p["seed"]))
+    ctx.check(d is None, "space_independence", f"changing one space changed the maps of the other: {d}")
+    if p["used"] and space.has_current_value:
+        ctx.nontriv(("space", p))
+        ctx.cls("nontrivial")
+    ctx.sample({"oracle": "space", "args": a, "used": p["used"], "channel": p["channel"]})
+
+
+# ======================================================================================
+# OptimizationProblem (and drivers)
+# ======================================================================================
+_run_draw = st.fixed_dictionaries({"algo": st.integers(0, 5), "n": st.integers(0, 5), "seed": st.integers(0, 3), "jac": st.booleans()})
+
+
+@st.composite
+def problem_cases(draw):
+    rec = R.RECIPES["OptimizationProblem"]
+    return {
+        "args": draw(rec.args),
+        "life": draw(st.sampled_from(["fresh", "evaluated", "evaluated", "solved", "solved"])),
+        "normalized": draw(st.booleans()),
+        "points": draw(st.lists(_u(), min_size=1, max_size=3)),
+        "run": draw(_run_draw),
+        "stats": draw(st.integers(0, 5)) > 0,
+        "channel": draw(st.sampled_from(["dumps", "dumps", "file", "fork"])),
+        "protocol": draw(st.sampled_from([2, 4, 5])),
+        "post_points": draw(st.lists(_u(), min_size=1, max_size=2)),
+        "post_run": draw(_run_draw),
+        "mutate_restored": draw(st.booleans()),
+    }
+
+
+def _driver_settings(a, run) -> dict:
+    k = run["algo"] % 4
+    if k == 0:
+        return {"algo_name": "SLSQP", "max_iter": 2 + run["n"] % 4}
+    if k == 1:
+        return {"algo_name": "PYDOE_LHS", "n_samples": 2 + run["n"] % 3, "random_state": 1 + run["seed"], "eval_jac": bool(run["jac"])}
+    if k == 2:
+        return {"algo_name": "NLOPT_COBYLA", "max_iter": 3 + run["n"] % 4}
+    return {"algo_name": "OT_HALTON", "n_samples": 2 + run["n"] % 3}
+
+
+def result_view(res) -> dict | None:
+    if res is None:
+        return None
+    fields = ["x_0", "x_opt", "f_opt", "objective_name", "status", "optimizer_name", "n_obj_call", "n_grad_call",
+              "n_constr_call", "is_feasible", "optimum_index", "constraint_values", "constraints_grad", "x_0_as_dict", "x_opt_as_dict"]
+    return plain({k: getattr(res, k, None) for k in fields})
+
+
+def problem_view(problem, stats: bool) -> dict:
+    space = problem.design_space
+    functions = [problem.objective, *problem.constraints, *problem.observables]
+    view = {
+        "class": type(problem).__qualname__,
+        "space": space_view(space),
+        "functions": [{"class": type(f).__name__, "name": f.name, "f_type": f.f_type, "dim": f.dim, "expr": f.expr,
+                       "n_calls": (f.n_calls if stats and hasattr(f, "n_calls") else None)} for f in functions],
+        "original_functions": [f.name for f in problem.original_functions] if hasattr(problem, "original_functions") else None,
+        "minimize": problem.minimize_objective,
+        "standardized": problem.use_standardized_objective,
+        "tolerances": [problem.tolerances.equality, problem.tolerances.inequality],
+        "differentiation_method": problem.differentiation_method,
+        "differentiation_step": problem.differentiation_step,
+        "is_linear": problem.is_linear,
+        "database": database_view(problem.database),
+        "solution": result_view(problem.solution),
+        "stop_if_nan": problem.stop_if_nan,
+        "evaluation_counter": [problem.evaluation_counter.current, problem.evaluation_counter.maximum],
+        "function_names": list(problem.function_names),
+    }
+    return plain(view)
+
+
+def case_problem(p, ctx):
+    from gemseo.algos.problem_function import ProblemFunction
+
+    tmp = tempfile.mkdtemp(dir=os.environ.get("VERIF_SCRATCH"))
+    saved = ProblemFunction.enable_statistics
+    try:
+        ProblemFunction.enable_statistics = bool(p["stats"])
+        _problem_body(p, ctx, tmp)
+    finally:
+        ProblemFunction.enable_statistics = saved
+        shutil.rmtree(tmp, ignore_errors=True)
+
+
+def _evaluate(problem, x, normalized: bool):
+    out, jac = problem.evaluate_functions(
+        design_vector=x.copy(), design_vector_is_normalized=normalized, jacobian_functions=(),
+    )
+    return plain({"out": dict(out), "jac": dict(jac)})
+
+
+def _solve(problem, settings):
+    from gemseo import execute_algo
+
+    algo_type = "doe" if settings["algo_name"].startswith(("PYDOE", "OT_")) else "opt"
+    return result_view(execute_algo(problem, algo_type=algo_type, **settings))
+
+
+def _problem_body(p, ctx, tmp):
+    a = p["args"]
+    stats = bool(p["stats"])
+    n = a["n"]
+    problem = R.build_problem(a)
+    ctx.cls(f"problem_life:{p['life']}", f"channel:{p['channel']}")
+    lo, hi = -2.0, 3.0
+    to_x = (lambda u: _xs(n, u)) if p["normalized"] else (lambda u: lo + (hi - lo) * _xs(n, u))
+    if p["life"] in ("evaluated", "solved"):
+        for u in p["points"]:
+            _evaluate(problem, to_x(u), p["normalized"])
+    if p["life"] == "solved":
+        settings = _driver_settings(a, p["run"])
+        r = _call(lambda: _solve(problem, settings))
+        ctx.cls(f"pre_driver:{settings['algo_name']}:{r[0]}")
+    before = problem_view(problem, stats)
+    restored = roundtrip(problem, p["channel"], p["protocol"], tmp, ctx, action=("noop",))
+    ctx.check(type(restored) is type(problem) and restored is not problem, "restored_type", f"restored problem is a {type(restored).__name__}")
+    d = diff(before, problem_view(restored, stats))
+    ctx.check(d is None, "problem_exposed", f"restored problem differs from the original: {d}")
+    if problem.evaluation_counter.maximum_is_reached:
+        # the driver exhausted its budget: lift it on both (the counter object is shared by a problem and its functions)
+        problem.evaluation_counter.maximum = restored.evaluation_counter.maximum = 0
+        ctx.cls("budget_lifted_after_driver")
+    # evaluations on the restored problem do not reach the original
+    first, second = (restored, problem) if p["mutate_restored"] else (problem, restored)
+    snap = problem_view(second, stats)
+    results = []
+    for u in p["post_points"]:
+        results.append(_call(lambda: _evaluate(first, to_x(u), p["normalized"])))
+    d = diff(snap, problem_view(second, stats))
+    ctx.check(d is None, "problem_independence", f"evaluating one problem changed the other (database, counters, design space): {d}")
+    for u, r1 in zip(p["post_points"], results):
+        r2 = _call(lambda: _evaluate(second, to_x(u), p["normalized"]))
+        ctx.check(r1[0] == r2[0], "problem_values", f"evaluate_functions: {r1[0]} on one problem, {r2[0]} on the other ({r1[1] if r1[0] != 'ok' else r2[1]})"[:400])
+        if r1[0] == "ok":
+            d = diff(r1[1], r2[1])
+            ctx.check(d is None, "problem_values", f"evaluate_functions differs between original and restored: {d}")
+        else:
+            ctx.cls(f"original_raises:{r1[1]}")
+    d = diff(problem_view(problem, stats), problem_view(restored, stats))
+    ctx.check(d is None, "problem_values", f"after the same evaluations the two problems differ: {d}")
+    # a driver gives the same result and database on both
+    settings = _driver_settings(a, p["post_run"])
+    snap = problem_view(second, stats)
+    r1 = _call(lambda: _solve(first, settings))
+    d = diff(snap, problem_view(second, stats))
+    ctx.check(d is None, "problem_independence", f"running {settings['algo_name']} on one problem changed the other: {d}")
+    r2 = _call(lambda: _solve(second, settings))
+    ctx.check(r1[0] == r2[0] and (r1[0] == "ok" or r1[1] == r2[1]), "driver_result",
+              f"{settings['algo_name']}: {r1[0]} {r1[1] if r1[0] != 'ok' else ''} on one problem, {r2[0]} {r2[1] if r2[0] != 'ok' else ''} on the other")
+    if r1[0] == "ok":
+        d = diff(r1[1], r2[1])
+        ctx.check(d is None, "driver_result", f"{settings['algo_name']} returns different results on original and restored: {d}")
+        ctx.cls(f"post_driver:{settings['algo_name']}")
+    else:
+        ctx.cls(f"original_raises:{settings['algo_name']}:{r1[1]}")
+    d = diff(problem_view(problem, stats), problem_view(restored, stats))
+    ctx.check(d is None, "driver_result", f"after {settings['algo_name']} the two problems (database, solution, counters) differ: {d}")
+    if p["life"] == "solved":
+        ctx.nontriv(("problem", p))
+        ctx.cls("nontrivial")
+    ctx.sample({"oracle": "problem", "args": a, "life": p["life"], "channel": p["channel"], "post_algo": settings["algo_name"]})
+
+
+# ======================================================================================
+# scenarios
+# ======================================================================================
+@st.composite
+def scenario_cases(draw):
+    rec = R.RECIPES["Scenario"]
+    return {
+        "args": draw(rec.args),
+        "runs": draw(st.lists(_run_draw, min_size=0, max_size=2)),
+        "stats": draw(st.integers(0, 5)) > 0,
+        "channel": draw(st.sampled_from(["dumps", "file", "fork"])),
+        "protocol": draw(st.sampled_from([2, 4, 5])),
+        "post_run": draw(_run_draw),
+        "mutate_restored": draw(st.booleans()),
+    }
+
+
+def scenario_view(scenario, stats: bool) -> dict:
+    problem = scenario.formulation.optimization_problem
+    view = {
+        "class": type(scenario).__qualname__,
+        "name": scenario.name,
+        "formulation": type(scenario.formulation).__qualname__,
+        "formulation_settings": getattr(scenario.formulation, "settings", None),
+        "problem": problem_view(problem, stats),
+        "result": result_view(scenario.optimization_result) if problem.solution is not None else None,
+        "disciplines": [snapshot(d, stats) for d in scenario.disciplines],
+        "settings": getattr(scenario, "_settings", None),
+        "status": scenario.execution_status.value,
+    }
+    if stats:
+        view["n_executions"] = scenario.execution_statistics.n_executions
+    return plain(view)
+
+
+def case_scenario(p, ctx):
+    from gemseo.algos.problem_function import ProblemFunction
+    from gemseo.core.execution_statistics import ExecutionStatistics
+
+    tmp = tempfile.mkdtemp(dir=os.environ.get("VERIF_SCRATCH"))
+    saved = ProblemFunction.enable_statistics, ExecutionStatistics.is_enabled
+    try:
+        ProblemFunction.enable_statistics = ExecutionStatistics.is_enabled = bool(p["stats"])
+        _scenario_body(p, ctx, tmp)
+    finally:
+        ProblemFunction.enable_statistics, ExecutionStatistics.is_enabled = saved
+        shutil.rmtree(tmp, ignore_errors=True)
+
+
+def _scenario_body(p, ctx, tmp):
+    a = p["args"]
+    stats = bool(p["stats"])
+    scenario = R.build_scenario(a)
+    form = R.FORMULATIONS[a["form"] % 4]
+    ctx.cls(f"scenario:{'DOE' if a['doe'] else 'MDO'}:{form}", f"channel:{p['channel']}", f"scenario_runs_before:{len(p['runs'])}")
+    for run in p["runs"]:
+        settings = R.scenario_settings(a, run)
+        r = _call(lambda: scenario.execute(**settings))
+        ctx.cls(f"pre_run:{settings['algo_name']}:{r[0]}")
+    post = R.scenario_settings(a, p["post_run"])
+    before = scenario_view(scenario, stats)
+    restored = roundtrip(scenario, p["channel"], p["protocol"], tmp, ctx, action=("scenario", post))
+    ctx.check(type(restored) is type(scenario) and restored is not scenario, "restored_type", f"restored scenario is a {type(restored).__name__}")
+    if p["channel"] == "fork":
+        # the worker has run the scenario: the original must be unchanged, then catches up
+        d = diff(before, scenario_view(scenario, stats))
+        ctx.check(d is None, "scenario_independence", f"running the scenario in the worker changed the original: {d}")
+        r = _call(lambda: scenario.execute(**post))
+        ctx.check(r[0] == "ok", "scenario_result", f"the worker ran {post['algo_name']} but the original raises {r[1]}")
+        d = diff(scenario_view(scenario, stats), scenario_view(restored, stats))
+        ctx.check(d is None, "scenario_result", f"scenario run in a forked worker and returned differs from the original run here: {d}")
+        ctx.cls(f"post_run:{post['algo_name']}")
+    else:
+        d = diff(before, scenario_view(restored, stats))
+        ctx.check(d is None, "scenario_exposed", f"restored scenario differs from the original: {d}")
+        first, second = (restored, scenario) if p["mutate_restored"] else (scenario, restored)
+        snap = scenario_view(second, stats)
+        r1 = _call(lambda: first.execute(**post))
+        d = diff(snap, scenario_view(second, stats))
+        ctx.check(d is None, "scenario_independence", f"running one scenario changed the other (database, design space, disciplines): {d}")
+        r2 = _call(lambda: second.execute(**post))
+        ctx.check(r1[0] == r2[0] and (r1[0] == "ok" or r1[1] == r2[1]), "scenario_result",
+                  f"{post['algo_name']}: {r1[0]} {r1[1] if r1[0] != 'ok' else ''} on one scenario, {r2[0]} {r2[1] if r2[0] != 'ok' else ''} on the other")
+        d = diff(scenario_view(scenario, stats), scenario_view(restored, stats))
+        ctx.check(d is None, "scenario_result", f"after {post['algo_name']} original and restored scenario (result, database, disciplines) differ: {d}")
+        ctx.cls(f"post_run:{post['algo_name']}" if r1[0] == "ok" else f"original_raises:{post['algo_name']}:{r1[1]}")
+    if p["runs"]:
+        ctx.nontriv(("scenario", p))
+        ctx.cls("nontrivial")
+    ctx.sample({"oracle": "scenario", "args": a, "runs": [R.scenario_settings(a, r)["algo_name"] for r in p["runs"]],
+                "channel": p["channel"], "post": post["algo_name"]})
+
+
+ORACLES = {"discipline": case_discipline, "function": case_function, "space": case_space, "problem": case_problem, "scenario": case_scenario}
 
 
 def run(ctx):
     ctx.extra["skipped_classes"] = [f"{k}: {v}" for k, v in sorted(R.SKIPPED.items())]
     ctx.extra["recipes"] = sorted(R.RECIPES)
-    ctx.drive("discipline", discipline_cases(), case_discipline, quick=250, thorough=1500)
+    # one Hypothesis run per recipe: every class is reached at every seed, a defect of one class does not hide the others
+    for name, rec in R.RECIPES.items():
+        if rec.kind in ("discipline", "mda"):
+            ctx.drive("discipline", discipline_cases(name), case_discipline, quick=2 + rec.weight // 2, thorough=16 + 12 * rec.weight)
+    ctx.drive("function", function_cases(), case_function, quick=120, thorough=1200)
+    ctx.drive("space", space_cases(), case_space, quick=60, thorough=600)
+    ctx.drive("problem", problem_cases(), case_problem, quick=40, thorough=400)
+    ctx.drive("scenario", scenario_cases(), case_scenario, quick=8, thorough=120)
